@@ -18,7 +18,7 @@ FromJ(t) == CASE t[1] \in {"set", "nset"} -> <<t[1], {t[2][k] : k \in DOMAIN t[2
               [] OTHER -> t
 
 \* the clauses of the property that a recorded result fails to satisfy, as a bit mask (0 = accepted):
-\*   1 malformed case (generator bug)   2 a Scheme error was raised        4 regexp-matches? disagrees with L(r)
+\*   1 malformed case (generator bug)   2 Scheme error / no result        4 regexp-matches? disagrees with L(r)
 \*   8 regexp-matches disagrees         16 regexp-matches spans wrong      32 regexp-search existence disagrees
 \*  64 regexp-search spans wrong
 Bit(cond, b) == IF cond THEN 0 ELSE b
@@ -29,7 +29,7 @@ Failed(ev) ==
        inL == Matches(r, s)
        found == Search(r, s)
    IN  IF ~WF(r) THEN 1
-       ELSE IF ev.err = 1 THEN 2
+       ELSE IF ev.err # 0 THEN 2
        ELSE Bit((ev.m = 1) = inL, 4)
             + Bit((ev.mf = 1) = inL, 8)
             + Bit((ev.mf = 1 /\ inL) => (ReportOk(r, s, ev.mm) /\ ev.mm[1] = <<0, n>>), 16)
